@@ -79,6 +79,28 @@ def style(rng, kw, defaults, obs=None):
     return out
 
 
+def reuse(obs, rng, env, who):
+    """the decorated function used once more, on another vector of another length: it must answer as a freshly built one does (no state kept
+    from the first call)"""
+    mk, f, x = env.get('mk'), env.get('f'), env.get('x')
+    if mk is None or f is None or x is None: return
+    n2 = max(1, len(x) + rng.choice([-2, -1, 1, 2, 3]))
+    x2 = gen_vec(rng, n2)
+    st = (rng.getstate(), np.random.get_state())
+    import random as _r
+    gst = _r.getstate()
+    try:
+        a = f(list(x2))
+        _r.setstate(gst); np.random.set_state(st[1])
+        b = mk()(list(x2))
+    except Exception as e:
+        obs.event('reuse_not_applicable'); return
+    rng.setstate(st[0])
+    obs.check(tolist(a) == tolist(b) or all((p != p and q != q) or p == q for p, q in zip(tolist(a), tolist(b))), 'idem:a decorated function keeps no state between calls (second vector, other length)',
+              decorator=who, x=x, x2=x2, reused=tolist(a), fresh=tolist(b))
+    obs.event('reuse_calls')
+
+
 def same_type(obs, x, y, kind, who):
     ok = isinstance(y, np.ndarray) if kind == 'array' else isinstance(y, list)
     obs.check(ok, 'type:container type preserved', decorator=who, given=kind, observed=type(y).__name__)
@@ -123,7 +145,7 @@ def run_bounds(rng, obs):
     barg = spec[0] if (nint == 1 and rng.random() < 0.5) else spec
     if any(not math.isfinite(a) or not math.isfinite(b) for a, b in ivals) and not clip:
         clip = True                                # sampling uniformly from an infinite interval is undefined
-    f = impose_bounds(barg, **style(rng, dict(index=index, clip=clip, nearest=nearest), dict(index=None, clip=True, nearest=True), obs))(ident)
+    mk = lambda: impose_bounds(barg, **style(rng, dict(index=index, clip=clip, nearest=nearest), dict(index=None, clip=True, nearest=True), obs))(ident); f = mk()
     xc, kind = as_container(rng, x)
     y = f(xc.copy() if kind == 'array' else list(xc))
     obs.desc = {'decorator': 'impose_bounds', 'bounds': spec, 'index': index, 'index_kind': ikind, 'clip': clip,
@@ -157,6 +179,7 @@ def run_bounds(rng, obs):
                 untouched += 1
         idem(obs, f, y, 'impose_bounds', bounds=spec, clip=clip)
     obs.nontrivial = moved > 0 and untouched > 0
+    if clip: reuse(obs, rng, locals(), 'impose_bounds')
     obs.notes = {'moved': moved, 'untouched': untouched, 'y': yl}
 
 
@@ -172,7 +195,7 @@ def run_grid(rng, obs):
         x = gen_vec(rng, n, grid=samples + [(a + b) / 2 for a, b in zip(samples, samples[1:])])
         given = list(samples)
         if rng.random() < 0.5: rng.shuffle(given)          # the sample set need not be handed over sorted
-        f = mc.discrete(given, **style(rng, dict(index=index), dict(index=None), obs))(ident)
+        mk = lambda: mc.discrete(given, **style(rng, dict(index=index), dict(index=None), obs))(ident); f = mk()
         conf = lambda v: v in samples
         def target(i, xi, yi):
             d = min(abs(xi - s) for s in samples)
@@ -181,7 +204,7 @@ def run_grid(rng, obs):
     elif which == 'integers':
         ints = rng.choice([True, False, float, int])
         x = gen_vec(rng, n)
-        f = mc.integers(**style(rng, dict(ints=ints, index=index), dict(ints=True, index=None), obs))(ident)
+        mk = lambda: mc.integers(**style(rng, dict(ints=ints, index=index), dict(ints=True, index=None), obs))(ident); f = mk()
         conf = lambda v: v == math.floor(v)
         def target(i, xi, yi):
             return yi == math.floor(yi) and abs(yi - xi) <= 0.5
@@ -190,7 +213,7 @@ def run_grid(rng, obs):
         digits = rng.choice([None, 0, 1, 2, 3, -1])
         d = digits or 0
         x = [round(v, rng.choice([0, 1, 2, 5, 9])) if rng.random() < 0.5 else v for v in gen_vec(rng, n, lo=-300, hi=300)]
-        f = getattr(mc, which)(**style(rng, dict(digits=digits, index=index), dict(digits=None, index=None), obs))(ident)
+        mk = lambda: getattr(mc, which)(**style(rng, dict(digits=digits, index=index), dict(digits=None, index=None), obs))(ident); f = mk()
         conf = lambda v: round(v, d) == v
         def target(i, xi, yi):
             return round(yi, d) == yi and abs(yi - xi) <= 0.5 * 10.0 ** (-d) * (1 + 1e-9)
@@ -201,7 +224,7 @@ def run_grid(rng, obs):
     if which == 'integers' and cfg['ints'] in ('True', "<class 'int'>") and sel != set(range(n)):
         # casting the whole vector to int also truncates unselected entries: only whole-vector selection is in scope
         index, sel, ikind = None, set(range(n)), 'none'
-        f = mc.integers(ints=eval(cfg['ints']) if cfg['ints'] == 'True' else int, index=None)(ident)
+        mk = lambda: mc.integers(ints=eval(cfg['ints']) if cfg['ints'] == 'True' else int, index=None)(ident); f = mk()
     y = f(xc.copy() if kind == 'array' else list(xc))
     obs.desc = dict(cfg, decorator=which, index=index, index_kind=ikind, x=x, container=kind)
     same_type(obs, xc, y, kind, which)
@@ -223,6 +246,7 @@ def run_grid(rng, obs):
             untouched += n - len(sel)
             idem(obs, f, y, which, cfg=cfg)
     obs.nontrivial = moved > 0 and untouched > 0
+    reuse(obs, rng, locals(), 'grid')
     obs.notes = {'moved': moved, 'untouched': untouched, 'y': yl}
 
 
@@ -276,7 +300,7 @@ def run_order(rng, obs):
         sel = rng.sample(range(n), k)                     # order of the index tuple must not matter
         # negative indices address positions from the end; mixed signs must select the same positions
         index = tuple((i - n) if rng.random() < 0.3 else i for i in sel); sel = sorted(sel)
-    f = getattr(mc, which)(**style(rng, dict(ascending=asc, outer=outer, index=index), dict(ascending=True, outer=False, index=None), obs))(ident)
+    mk = lambda: getattr(mc, which)(**style(rng, dict(ascending=asc, outer=outer, index=index), dict(ascending=True, outer=False, index=None), obs))(ident); f = mk()
     xc, kind = as_container(rng, x)
     y = f(xc.copy() if kind == 'array' else list(xc))
     obs.desc = {'decorator': which, 'ascending': asc, 'outer': outer, 'index': index, 'x': x, 'container': kind}
@@ -300,6 +324,7 @@ def run_order(rng, obs):
             obs.check(yl == x, 'frame:already ordered input unchanged', decorator=which, x=x, y=yl)
         idem(obs, f, y, which)
         obs.nontrivial = (not was) and len(sel) < n
+    reuse(obs, rng, locals(), 'order')
     obs.notes = {'y': yl}
 
 
@@ -321,9 +346,10 @@ def run_pin(rng, obs):
         tgt = target
         if isinstance(target, list) and rng.random() < 0.3: tgt = np.array(target)
         if not isinstance(target, list) and target == 0.0 and rng.random() < 0.5:
-            f = impose_at(list(idx))(ident); obs.event('default_argument_calls')       # target defaults to 0.0
+            mk = lambda: impose_at(list(idx))(ident); f = mk(); obs.event('default_argument_calls')       # target defaults to 0.0
         else:
-            f = impose_at(list(idx) if rng.random() < 0.7 else tuple(idx), tgt)(ident)
+            ix_ = list(idx) if rng.random() < 0.7 else tuple(idx)
+            mk = lambda: impose_at(ix_, tgt)(ident); f = mk()
         xc, kind = as_container(rng, x)
         y = f(xc.copy() if kind == 'array' else list(xc))
         yl = tolist(y)
@@ -350,7 +376,7 @@ def run_pin(rng, obs):
         pairs = sorted(set(pairs))
         if not pairs: pairs = [(0, 1)]
         mask = set(pairs) if rng.random() < 0.5 else list(pairs)
-        f = impose_as(mask, offset)(ident) if (offset is not None or rng.random() < 0.5) else impose_as(mask)(ident)
+        mk = (lambda: impose_as(mask, offset)(ident)) if (offset is not None or rng.random() < 0.5) else (lambda: impose_as(mask)(ident)); f = mk()
         xc, kind = as_container(rng, x)
         y = f(xc.copy() if kind == 'array' else list(xc))
         yl = tolist(y)
@@ -378,6 +404,7 @@ def run_pin(rng, obs):
                 obs.check(ok, 'target:a tied group takes the value of one of its members', pairs=pairs, x=x, y=yl)
             idem(obs, f, y, 'impose_as', exact=False)
             obs.nontrivial = bool(live) and any(abs(x[b] - (x[a] + off)) > 1e-9 for a, b in live) and len(touched & set(range(n))) < n
+    reuse(obs, rng, locals(), 'pin')
     obs.notes = {'y': yl}
 
 
@@ -395,7 +422,7 @@ def run_stats(rng, obs):
     var = lambda v: sum((a - mean(v)) ** 2 for a in v) / len(v)
     stat = {'with_mean': mean, 'with_variance': var, 'with_std': lambda v: var(v) ** 0.5,
             'with_spread': lambda v: max(v) - min(v), 'normalized': lambda v: sum(v)}[which]
-    f = getattr(mc, which)(target)(ident)
+    mk = lambda: getattr(mc, which)(target)(ident); f = mk()
     if rng.random() < 0.25:                         # conforming input: build one by applying the reference transform
         if which == 'with_mean': x = [a - mean(x) + target for a in x]
         elif which == 'normalized': x = [a * target / sum(x) for a in x]
@@ -419,6 +446,7 @@ def run_stats(rng, obs):
         obs.check(abs((max(yl) - min(yl)) - (max(x) - min(x))) <= 1e-9 * max(1.0, max(x) - min(x)), 'frame:the spread is kept', x=x, y=yl)
     idem(obs, f, y, which, exact=False)
     obs.nontrivial = not was and abs(stat(x) - target) > 0.01 * max(1.0, abs(target))
+    reuse(obs, rng, locals(), 'stats')
     obs.notes = {'stat_before': stat(x), 'stat_after': got}
 
 
@@ -449,7 +477,7 @@ def run_rewrite(rng, obs):
     elif which == 'partial':
         keys = rng.sample(range(n + 2), rng.randint(1, min(3, n + 2)))
         mask = {i: -50.0 - i for i in keys}
-        f = mt.partial(dict(mask))(ident)
+        mk = lambda: mt.partial(dict(mask))(ident); f = mk()
         y = f(list(x))
         sel = set(i for i in mask if i < n)
         obs.desc['mask'] = mask
@@ -462,7 +490,7 @@ def run_rewrite(rng, obs):
         i, j = rng.sample(range(n), 2)
         scale = rng.choice([None, 2.0, -1.0])
         mask = {i: j} if scale is None else {i: (j, scale)}
-        f = mt.synchronized(dict(mask))(ident)
+        mk = lambda: mt.synchronized(dict(mask))(ident); f = mk()
         y = f(list(x))
         want = x[j] if scale is None else scale * x[j]
         obs.desc['mask'] = {str(i): [j, scale]}
@@ -475,7 +503,7 @@ def run_rewrite(rng, obs):
         if rng.random() < 0.2: lo = None
         elif rng.random() < 0.2: hi = None
         exit_ = rng.choice([False, True])
-        f = mt.clipped(**style(rng, dict(min=lo, max=hi, exit=exit_), dict(min=None, max=None, exit=False), obs))(ident)
+        mk = lambda: mt.clipped(**style(rng, dict(min=lo, max=hi, exit=exit_), dict(min=None, max=None, exit=False), obs))(ident); f = mk()
         y = f(list(x))
         exp = [min(max(v, lo if lo is not None else -math.inf), hi if hi is not None else math.inf) for v in x]
         obs.desc.update({'min': lo, 'max': hi, 'exit': exit_})
@@ -487,7 +515,7 @@ def run_rewrite(rng, obs):
         tol = rng.choice([1e-8, 1e-3, 0.5])
         x = [v * rng.choice([1.0, 1e-4, 1e-9, 0.1]) for v in x]
         exit_ = rng.choice([False, True])
-        f = mt.suppressed(**style(rng, dict(tol=tol, exit=exit_), dict(tol=1e-8, exit=False), obs))(ident)
+        mk = lambda: mt.suppressed(**style(rng, dict(tol=tol, exit=exit_), dict(tol=1e-8, exit=False), obs))(ident); f = mk()
         y = f(list(x))
         exp = [0.0 if abs(v) < tol else v for v in x]
         obs.desc.update({'tol': tol, 'exit': exit_, 'x': x})
@@ -495,6 +523,7 @@ def run_rewrite(rng, obs):
         frame(obs, x, list(y), set(i for i in range(n) if abs(x[i]) < tol), 'suppressed')
         idem(obs, f, list(y), 'suppressed'); obs.event('assert:type')
         obs.nontrivial = exp != x and any(a == b and a != 0 for a, b in zip(exp, x))
+    reuse(obs, rng, locals(), 'rewrite')
     obs.notes = {'y': tolist(y) if not isinstance(y, (int, float)) else y}
 
 
